@@ -236,6 +236,20 @@ def rule_codec_shape(ctx, repo):
         r.undecided('encode:reversed', enc.site, 'digit list not identified')
     # decode: membership guard dominates the index lookup, raises InvalidBase58Error
     s = dec.params[0]
+    # ... and it is the text as given that is walked: a rebinding of the parameter (strip, lower, replace, a slice) decides
+    # about characters before the membership test sees them
+    reb = [n for n in walk_no_nested(dec.node) if isinstance(n, (ast.Assign, ast.AugAssign)) and any(isinstance(t, ast.Name) and t.id == s for t in (n.targets if isinstance(n, ast.Assign) else [n.target]))]
+    if reb:
+        v_ = reb[0].value
+        lossy = isinstance(v_, ast.Call) and isinstance(v_.func, ast.Attribute) and v_.func.attr in ('strip', 'lstrip', 'rstrip', 'replace', 'lower', 'upper', 'translate', 'split', 'casefold') \
+            and any(isinstance(x, ast.Name) and x.id == s for x in ast.walk(v_.func.value))
+        if lossy:
+            r.violated('decode:text-as-given', common.site_of(dec, reb[0]), 'decode rebinds its text with `%s` before looking at the characters: characters outside the alphabet (white space, '
+                       'for `strip`) are dropped instead of raising InvalidBase58Error' % norm(reb[0]), sure=True)
+        else:
+            r.undecided('decode:text-as-given', common.site_of(dec, reb[0]), 'decode rebinds its text: `%s`' % norm(reb[0])[:80])
+    else:
+        r.ok('decode:text-as-given', dec.site, 'the parameter is not rebound before the character loop')
     idx = [c for c in common.iter_calls(dec.node) if norm(c.func) in ('B58_DIGITS.index', 'B58_DIGITS.find')]
     if not idx:
         # a reverse table indexed by the character code: the index is unbounded for text (ord up to 0x10FFFF) unless a
@@ -359,6 +373,24 @@ def rule_frame(ctx, repo):
                        % (ast.unparse(common.resolved(new, n.left, repo))[:80], ast.unparse(common.resolved(new, n.comparators[0], repo))[:80], '%s[-4:]' % K, 'Hash(%s[0:1] + %s[1:-4])[:4]' % (K, K)))
         else:
             r.violated('reader:checksum', new.site, 'no comparison of the stored checksum with SHA256d(version byte + payload)[:4] in CBase58Data.__new__')
+    # the three slices partition the decoded string only from five bytes up: with exactly four, k[0:1] is the first byte
+    # of k[-4:] - the "version byte" is part of its own checksum, and whether such a string passes depends on SHA-256
+    # alone (7415e100 does: SHA256d(74) starts 7415e100).  An object may be built only where len(k) >= 5 is known.
+    kvar = next((norm(n.targets[0]) for n in walk_no_nested(new.node) if isinstance(n, ast.Assign) and len(n.targets) == 1 and isinstance(n.targets[0], ast.Name)
+                 and isinstance(n.value, ast.Call) and norm(n.value.func) in ('decode', 'bitcoin.base58.decode')), None)
+    if cmps and kvar:
+        from ..escape import implied_at, path_condition
+        for rn in [n for n in walk_no_nested(new.node) if isinstance(n, ast.Return) and n.value is not None]:
+            v_ = implied_at(repo, new, rn, 'len(%s) >= 5' % kvar)
+            pcs_ = [norm(t) for t, _ in path_condition(rn)]
+            if v_ is True:
+                r.ok('reader:slices-disjoint', common.site_of(new, rn), 'an object is built only from five bytes up')
+            elif not any('len(%s)' % kvar in t for t in pcs_):
+                r.violated('reader:slices-disjoint', common.site_of(new, rn), 'nothing on the way to `%s` bounds len(%s) from below: for a 4-byte string the version byte %s[0:1] is the first byte of its '
+                           'own checksum %s[-4:], and the string is accepted if that byte equals the first byte of its double SHA-256 (7415e100 decodes to version 0x74 with an empty payload, '
+                           'whose text form is 747415e100)' % (norm(rn.value)[:40], kvar, kvar, kvar), sure=True)
+            else:
+                r.undecided('reader:slices-disjoint', common.site_of(new, rn), 'whether len(%s) >= 5 where the object is built is not decided (tests: %s)' % (kvar, pcs_[:3]))
     mf = flow.run_must(new.node, cond=cond)
     rets = [(k, n, f) for k, n, f in mf.exits if k == 'return']
     built = want(new, 'cls.from_bytes(%s[1:-4], %s[0:1][0])' % (K, K))
